@@ -7,8 +7,8 @@ harnesses! {
     /// BDL azimuth (N=0, E=+90) -> ISO 52016-1 azimuth (S=0, E=+90): 180 - a, wrapped into [-180, 180)
     fn azimuth_convention(s) {
         let k = s.i32();
-        s.assume(k >= -1440 && k <= 2880);
-        let a = k as f32 * 0.25; // 0.25 degree grid over [-360, 720]: every value exact
+        s.assume(k >= -2880 && k <= 4320);
+        let a = k as f32 * 0.25; // 0.25 degree grid over [-720, 1080]: every value exact (two whole turns either way)
         let got = orientation_bdl_to_52016(a);
         // exact residue of 180 - a in [-180, 180) on the quarter-degree integer grid
         let r4 = 720 - k; // (180 - a) * 4
@@ -17,7 +17,8 @@ harnesses! {
         while w < -720 { w += 1440; }
         cover!(k == 0, "north");
         cover!(k == 360, "east");
-        cover!(k < -720, "below -180");
+        cover!(k < -1440, "more than one turn below");
+        cover!(k > 3000, "more than one turn above");
         assert!(got >= -180.0 && got <= 180.0, "C03:azimuth stays in [-180,180]");
         assert!(got == w as f32 * 0.25 || (w == -720 && got == 180.0), "C03:azimuth = 180 - a modulo 360 (N->180, E->90, S->0, W->-90)");
         let again = normalize_azimuth(got);
